@@ -15,6 +15,8 @@ import (
 	"sync"
 	"time"
 
+	"go/types"
+
 	"golang.org/x/tools/go/ssa"
 
 	"symgo/interp"
@@ -157,6 +159,7 @@ func cmdCheck(args []string) int {
 			if err == nil {
 				eng.Thorough = *tier == "thorough"
 				eng.Probe = true
+				eng.SymMapOrder = strings.HasPrefix(h.Name(), "H_C19_")
 				eng.S.Abstract = !isIdeal(h.Name()) && !strings.HasSuffix(h.Name(), "_X")
 				ar = l.P.LeadingChoices(eng, h)
 				eng.Close()
@@ -230,6 +233,7 @@ func cmdCheck(args []string) int {
 			defer eng.Close()
 			eng.Thorough = *tier == "thorough"
 			eng.Forced = forced
+			eng.SymMapOrder = strings.HasPrefix(h.Name(), "H_C19_")
 			eng.S.Abstract = !isIdeal(h.Name()) && !strings.HasSuffix(h.Name(), "_X")
 			eng.SetKnown(known)
 			tr.Eng = eng
@@ -244,6 +248,9 @@ func cmdCheck(args []string) int {
 	}
 	wg.Wait()
 	rwg.Wait()
+	if *prop == "C19" {
+		censusC19 = census(l)
+	}
 	return report(*prop, *tier, seed, l, results, known, replayBin, replayErr, *noReplay, start)
 }
 
@@ -371,4 +378,75 @@ func sortedKeys[V any](m map[string]V) []string {
 	}
 	sort.Strings(ks)
 	return ks
+}
+
+var censusC19 map[string]int
+
+// census counts the nondeterminism sources in the SSA of the state-machine packages
+// (non-test code): range over map, go statements, select, wall clock, randomness.
+func census(l *Loaded) map[string]int {
+	out := map[string]int{}
+	pkgs := []string{"github.com/terra-money/alliance/x/alliance", "github.com/terra-money/alliance/x/alliance/keeper",
+		"github.com/terra-money/alliance/x/alliance/types", "github.com/terra-money/alliance/custom/bank/keeper"}
+	for _, pp := range pkgs {
+		pkg := l.Prog.ImportedPackage(pp)
+		if pkg == nil {
+			continue
+		}
+		var fns []*ssa.Function
+		for _, m := range pkg.Members {
+			switch x := m.(type) {
+			case *ssa.Function:
+				fns = append(fns, x)
+			case *ssa.Type:
+				for _, T := range []types.Type{x.Type(), types.NewPointer(x.Type())} {
+					ms := l.Prog.MethodSets.MethodSet(T)
+					for i := 0; i < ms.Len(); i++ {
+						if f := l.Prog.MethodValue(ms.At(i)); f != nil && f.Pkg == pkg {
+							fns = append(fns, f)
+						}
+					}
+				}
+			}
+		}
+		seen := map[*ssa.Function]bool{}
+		var visit func(f *ssa.Function)
+		visit = func(f *ssa.Function) {
+			if f == nil || seen[f] || f.Blocks == nil {
+				return
+			}
+			seen[f] = true
+			if strings.HasSuffix(l.Prog.Fset.Position(f.Pos()).Filename, ".pb.go") || strings.HasSuffix(l.Prog.Fset.Position(f.Pos()).Filename, ".pb.gw.go") {
+				return
+			}
+			for _, b := range f.Blocks {
+				for _, in := range b.Instrs {
+					switch x := in.(type) {
+					case *ssa.Range:
+						if _, ok := x.X.Type().Underlying().(*types.Map); ok {
+							out["range-over-map in "+f.String()]++
+						}
+					case *ssa.Go:
+						out["go statement in "+f.String()]++
+					case *ssa.Select:
+						out["select in "+f.String()]++
+					case ssa.CallInstruction:
+						if c := x.Common().StaticCallee(); c != nil {
+							n := c.String()
+							if n == "time.Now" || strings.HasPrefix(n, "math/rand.") || strings.HasPrefix(n, "crypto/rand.") || strings.HasPrefix(n, "math/rand/v2.") {
+								out["call of "+n+" in "+f.String()]++
+							}
+						}
+					}
+				}
+			}
+			for _, af := range f.AnonFuncs {
+				visit(af)
+			}
+		}
+		for _, f := range fns {
+			visit(f)
+		}
+	}
+	return out
 }
